@@ -29,7 +29,7 @@ theorem obs_of_view (g : Getter) (e1 e2 : Entry) (h : view g.group e1 = view g.g
   all_goals
     simp only [obs, timeIsSet, dev, devmajor, devminor, devIsSet, rdev, rdevmajor, rdevminor, rdevIsSet,
       ino, inoIsSet, nlink, uid, uidIsSet, gid, gidIsSet, size, sizeIsSet, mode, filetype, filetypeIsSet, perm, permIsSet,
-      strmode, getStr, hardlink, hardlinkIsSet, symlink, fflags, symlinkType, isDataEncrypted, isMetadataEncrypted, isEncrypted,
+      strmode, getStr, hardlink, hardlinkIsSet, symlink, fflags, fflagsTextV, symlinkType, isDataEncrypted, isMetadataEncrypted, isEncrypted,
       xattrCount, macMetadata, digest, h]
   all_goals rfl
 
@@ -132,6 +132,8 @@ theorem step_view_congr (G : Group) (op : Op) (e1 e2 e1' e2' : Entry) (h : view 
   case setLinkToHardlink => exact setLinkToHardlink_view G e1 e2 h
   case setLinkToSymlink => exact setLinkToSymlink_view G e1 e2 h
   case setFflags s c => exact setFflags_view G e1 e2 h s c
+  case copyFflagsText s => exact copyFflagsText_view G e1 e2 h s
+  case fflagsText => exact fflagsText_view G e1 e2 h
   case setSymlinkType t => exact setSymlinkType_view G e1 e2 h t
   case setIsDataEncrypted b => exact setIsDataEncrypted_view G e1 e2 h b
   case setIsMetadataEncrypted b => exact setIsMetadataEncrypted_view G e1 e2 h b
@@ -188,6 +190,8 @@ theorem step_untouched (G : Group) (op : Op) (e e' : Entry) (ht : touches op G =
   case setLinkToHardlink => exact setLinkToHardlink_frame G e ht
   case setLinkToSymlink => exact setLinkToSymlink_frame G e ht
   case setFflags s c => exact setFflags_frame G e s c ht
+  case copyFflagsText s => exact copyFflagsText_frame G e s ht
+  case fflagsText => exact fflagsText_frame G e ht
   case setSymlinkType t => exact setSymlinkType_frame G e t ht
   case setIsDataEncrypted b => exact setIsDataEncrypted_frame G e b ht
   case setIsMetadataEncrypted b => exact setIsMetadataEncrypted_frame G e b ht
